@@ -106,6 +106,12 @@ func init() {
 	commonJust["attestation/yubiattest.ModHex|index alloc<[8]byte>[:const(8)][(phi{(↺+const(2))|phi{(const(0)+const(2))|const(0)}}+const(1))]"] = "dst index+1, same argument: C16.R4 decides 2*len(serial)+offset == 8 in each admitted arm"
 	// crypto/ecdh PublicKey.Bytes() is the uncompressed point: 65 / 97 / 133 bytes for P-256 / P-384 / P-521; a slice
 	// of it in an arm selected by the key's own curve is decided against that length.
+	// ModHex's write index: it runs from the arm's offset (a join of the constants 0 and 2) in steps of two, and the
+	// index+1 form; C16.R4.modhex decides 2*len(serial)+offset == 8 for each admitted arm
+	justShapes = append(justShapes, justShape{
+		why:   "dst index runs from the arm's offset in steps of 2 over len(serial) bytes; C16.R4 decides 2*len(serial)+offset == 8 in each admitted arm",
+		holds: modhexIndexGuard,
+	})
 	// the less function handed to sort.Slice / sort.SliceStable over a slice variable indexes that same variable with
 	// its own parameters: the sort only passes indices in [0, len)
 	justShapes = append(justShapes, justShape{
@@ -413,4 +419,72 @@ func sortLessGuard(w *World, fn *ssa.Function, ins ssa.Instruction, facts *Facts
 		}
 	}
 	return n == 1
+}
+
+// modhexIndexGuard: in ModHex, an index into the 8-byte result that is P or P+1, P a join of (P+2) with a join of
+// the constants 0 and 2 (or one of them).
+func modhexIndexGuard(w *World, fn *ssa.Function, ins ssa.Instruction, facts *Facts, root *ssa.Function) bool {
+	if fn.Name() != "ModHex" || fn.Pkg == nil || !strings.HasSuffix(fn.Pkg.Pkg.Path(), attestPkg) {
+		return false
+	}
+	ia, ok := ins.(*ssa.IndexAddr)
+	if !ok {
+		return false
+	}
+	// the sequence: the 8-byte buffer
+	is8 := false
+	switch x := ia.X.(type) {
+	case *ssa.MakeSlice:
+		k, isK := intConst(x.Len)
+		is8 = isK && k == 8
+	case *ssa.Slice:
+		if al, isAl := x.X.(*ssa.Alloc); isAl {
+			is8 = arrayLen(al.Type()) == 8
+		}
+	}
+	if !is8 {
+		return false
+	}
+	idx := ia.Index
+	if b, isB := idx.(*ssa.BinOp); isB && b.Op == token.ADD {
+		if one, isK := intConst(b.Y); isK && one == 1 {
+			idx = b.X
+		}
+	}
+	phi, ok := idx.(*ssa.Phi)
+	if !ok {
+		return false
+	}
+	step := false
+	for _, e := range phi.Edges {
+		if b, isB := e.(*ssa.BinOp); isB && b.Op == token.ADD && b.X == ssa.Value(phi) {
+			if k, isK := intConst(b.Y); isK && k == 2 {
+				step = true
+				continue
+			}
+			return false
+		}
+		// the start: 0, 2 or a join of them
+		var starts []ssa.Value
+		if sp, isPhi := e.(*ssa.Phi); isPhi {
+			starts = sp.Edges
+		} else {
+			starts = []ssa.Value{e}
+		}
+		for _, sv := range starts {
+			if b, isB := sv.(*ssa.BinOp); isB && b.Op == token.ADD {
+				// 0 + 2
+				x, okx := intConst(b.X)
+				y, oky := intConst(b.Y)
+				if okx && oky && (x+y == 0 || x+y == 2) {
+					continue
+				}
+				return false
+			}
+			if k, isK := intConst(sv); !isK || (k != 0 && k != 2) {
+				return false
+			}
+		}
+	}
+	return step
 }
